@@ -9,8 +9,10 @@ from pathlib import Path
 
 V = Path(__file__).resolve().parent.parent
 pid = sys.argv[1].upper()
-wt = Path(sys.argv[2] if len(sys.argv) > 2 else f"/tmp/seed_{pid}")
-out = V / "seeded" / pid
+args = [a for a in sys.argv[2:] if not a.startswith("--")]
+wt = Path(args[0] if args else f"/tmp/seed_{pid}")
+suffix = [a.split("=", 1)[1] for a in sys.argv if a.startswith("--suffix=")]
+out = V / "seeded" / (pid + (suffix[0] if suffix else ""))
 out.mkdir(parents=True, exist_ok=True)
 env = dict(os.environ, PYTHONPATH=str(wt / "src"))
 
